@@ -144,6 +144,24 @@ theorem parseAuxBam_accessors_safe (aux : Bytes) (l : List Bytes) (hlen : aux.le
     intro a ha
     exact ⟨hw hlen a ha, auxSweep_wf a (hw hlen a ha)⟩
 
+/-- `bam.decodeHex` (repair fixes/C05-2, the `H` branch of `bam.parseAux`) never panics on a field of at
+least three bytes, which is what `parseAux` hands it (`j ≥ 3` is checked just before the call): `f[3:]`
+and `f[:3]` are in range, after the parity check `digits[k]`, `digits[k+1]`, `digits[k:k+2]` are in range
+for every even `k < len(digits)`, `3+k/2 < 3+len(digits)/2 = len(a)`, the `make` count is not negative,
+and the loop ends. An odd number of digits and a non-digit are errors. -/
+theorem decodeHex_total (f : Bytes) (h3 : 3 ≤ f.length) : (decodeHexGo f).isPanic = false := by
+  rcases decodeHexGo_spec f h3 with h | ⟨b, h⟩ <;> rw [h] <;> rfl
+
+/-- a value of `bam.decodeHex` starts with the three tag and type bytes of the stored field, so
+`a.Type()` is still `'H'` and the field is well formed for the accessors -/
+theorem decodeHex_keeps_head (f a : Bytes) (h3 : 3 ≤ f.length) (h : decodeHexGo f = ok a) :
+    a.take 3 = f.take 3 := by
+  rcases decodeHexGo_spec f h3 with h' | ⟨b, h'⟩
+  · rw [h'] at h; cases h
+  · rw [h'] at h; cases h
+    have hl : (f.take 3).length = 3 := by rw [List.length_take]; omega
+    rw [List.take_append_of_le_length (by omega), List.take_take, Nat.min_self]
+
 /-- the accessor sweep is safe on EVERY well-formed field (the link used by both decoders) -/
 theorem aux_accessors_safe (a : Bytes) (h : wfAux a = true) : (auxSweep a).isPanic = false := by
   rw [auxSweep_wf a h]; rfl
@@ -342,6 +360,16 @@ example : wfAux [88, 89, 66, 115, 2, 0, 0, 0, 1, 0, 2, 0] = true := by decide
 -- an aux block: XYC\x01  ZZZab\0  BBBc\x02\0\0\0\x07\x08
 example : parseAuxBam [88, 89, 67, 1, 90, 90, 90, 97, 98, 0, 66, 66, 66, 99, 2, 0, 0, 0, 7, 8] =
     ok [[88, 89, 67, 1], [90, 90, 90, 97, 98], [66, 66, 66, 99, 2, 0, 0, 0, 7, 8]] := by decide
+-- XHH1AE3\0 : the stored digits "1AE3" are decoded to the bytes 0x1a 0xe3; "XHH\0" is the empty value
+example : parseAuxBam [88, 72, 72, 49, 65, 69, 51, 0] = ok [[88, 72, 72, 0x1a, 0xe3]] := by decide
+example : parseAuxBam [88, 72, 72, 49, 97, 101, 51, 0, 88, 89, 67, 1] = ok [[88, 72, 72, 0x1a, 0xe3], [88, 89, 67, 1]] := by decide
+example : parseAuxBam [88, 72, 72, 0] = ok [[88, 72, 72]] := by decide
+-- an odd number of digits, a non-digit, no terminator: errors
+example : parseAuxBam [88, 72, 72, 49, 65, 69, 0] = err := by decide
+example : parseAuxBam [88, 72, 72, 49, 71, 0] = err := by decide
+example : parseAuxBam [88, 72, 72, 49, 65] = err := by decide
+-- the guard `j < 3` before the call is what keeps `f[3:]` in range
+example : decodeHexGo [88, 72] = .panic "bam.decodeHex:f[3:]" := by decide
 -- truncated fixed-width value, array header, unknown array type, zero inside the tag: errors
 example : parseAuxBam [88, 89, 105, 1] = err := by decide
 example : parseAuxBam [88, 89, 66] = err := by decide
